@@ -1,3 +1,3 @@
 From Coq Require Import ExtrOcamlBasic ZArith.
-From RtoscV Require Import Ports.NameModel Ports.PathModel Ports.WalkModel Ports.NamesModel.
-Extraction "model.ml" Z.add Z.mul Z.opp walk apropos names_ok render_port.
+From RtoscV Require Import Ports.NameModel Ports.PathModel Ports.WalkModel Ports.NamesModel Ports.EnabledModel.
+Extraction "model.ml" Z.add Z.mul Z.opp walk walk_rt apropos names_ok render_port.
